@@ -1,4 +1,5 @@
 import collections.abc
+import datetime
 
 from decimal import Decimal
 from functools import singledispatchmethod
@@ -174,7 +175,7 @@ class Compiler:
             if c_expression is not None and is_aggregate(c_expression):
                 raise CompilationError('aggregates are not allowed in FROM clause')
 
-            if node.open and node.close and node.open > node.close:
+            if node.open and isinstance(node.close, datetime.date) and node.open > node.close:
                 raise CompilationError('CLOSE date must follow OPEN date')
 
             # Apply OPEN, CLOSE, and CLEAR clauses.
